@@ -327,6 +327,14 @@ func c04Compare(e *Env, c *Case, key, broken string) (im Outcome, mo Outcome, ok
 	if err == nil && (compareTick%2 == 0 || e.Thorough()) {
 		sourceRouteOracle(e, c, im, false)
 	}
+	if err == nil {
+		// (i) the same case as part of a template on either side of the size at which the parser changes scanners (c04_sizes.go)
+		c04SizeOracle(e, c, im, e.N(2, 1))
+		// (j) the same case rendered right after unrelated templates that reuse its block, macro and variable names (c04_positions.go)
+		if compareTick%e.N(8, 2) == 0 {
+			c04HistoryOracle(e, c, im, "the direct render of the same templates, compared with the Lean model", false)
+		}
+	}
 	return
 }
 
@@ -370,6 +378,7 @@ func runCommentShaped(e *Env, src string, all bool) error {
 		return err
 	}
 	sourceRouteOracle(e, c, im, all)
+	c04SizeOracle(e, c, im, 1)
 	e.Rep.Seen("cs:"+src, true)
 	e.Rep.Hit("comment-shaped-source")
 	return nil
